@@ -32,7 +32,9 @@ def delay_strategy(clock, legal=True):
         if legal:
             return st.one_of(st.sampled_from(_I_DELAY), st.integers(0, 30), st.integers(0, 2 ** 100),
                              st.sampled_from(_I_BIG))
-        return st.one_of(st.sampled_from([-1, -2, -10]), st.integers(-2 ** 100, -1))
+        # (a fractional negative delay on an integer clock is a negative delay like any other)
+        return st.one_of(st.sampled_from([-1, -2, -10]), st.integers(-2 ** 100, -1),
+                         st.sampled_from([-0.5, -0.25, -1e-9]).map(fx))
     if legal:
         return st.one_of(st.sampled_from(_D_DELAY),
                          st.tuples(st.floats(0.0, 30.0).map(fx), st.sampled_from(["s", "min", "ms"])).map(list))
